@@ -31,6 +31,7 @@ open CaddyModel.C14
 #print axioms writerDir_is_env_after_files
 #print axioms resume_reads_where_autosave_writes
 #print axioms resume_recovers_latest_push
+#print axioms caddyfile_persist_config
 -- the calculus everything above rests on
 #print axioms wp_sound
 #print axioms wpn_sound
